@@ -225,6 +225,20 @@ def glue_by_identity(facts, rep):
                            "the reported name flows into %s%s" % (cn, "" if ok else
                            ": names are not identities - an instantiation must be found by (op, argument types), not by its name"),
                            b.loc(bb))
+        # names copied from the graphs being glued: collide as soon as two instantiations bring equally named auxiliary graphs
+        for bb, t in b.calls():
+            if b.is_cleanup(bb) or callee_name(t) not in NAMING_SINKS:
+                continue
+            copied = [o for a in t["args"] if a[0] != "k" for o in fl.origins(a, (bb, None))
+                      if o[0] == "call" and o[2] in ("graphs::Graph::get_name", "graphs::Context::get_graph_name")]
+            if copied:
+                aux = _named_aux_graphs(facts)
+                rep.ob("C08.G", "%s|copied-graph-name" % fname.split("::")[-1], not aux,
+                       "glued graphs inherit the name of the graph they are copied from, and no instantiate() can produce a named "
+                       "auxiliary graph" if not aux else
+                       "glued graphs inherit the name of the graph they are copied from, while instantiate() bodies produce named "
+                       "auxiliary graphs (%s): names are unique per context only, so two instantiations that bring the same "
+                       "auxiliary graph make run_instantiation_pass fail with 'graph names must be unique'" % aux[0], b.loc(bb))
         if fname == "custom_ops::run_instantiation_pass":
             rep.floor("C08.G", "uses of Instantiation::get_name in run_instantiation_pass", n, 1)
             # the cache of glued instantiations is a HashMap keyed by Instantiation
@@ -233,9 +247,86 @@ def glue_by_identity(facts, rep):
                    "glued_instantiations_cache is a HashMap keyed by Instantiation (%d local(s))" % len(keyed), b.loc())
 
 
+def eq_reads_leaf(facts, adt, leaf, tr="std::cmp::PartialEq", meth="eq"):
+    """does equality (or hashing) of `adt` depend on leaf path `leaf`, following crate-local struct fields level by level;
+    returns (bool, description of the level that drops it)"""
+    cur = adt
+    for i, fname in enumerate(leaf):
+        a = facts.adts.get(cur)
+        if a is None or a["kind"] != "struct":
+            return True, ""
+        im = facts.impl_of(tr, cur)
+        if im is None:
+            return True, ""         # not comparable at this level: nothing to say
+        if not im["derived"]:
+            body = None
+            for f in im["fns"]:
+                if f.endswith("::" + meth):
+                    body = facts.body(f)
+            if body is None:
+                return True, ""
+            used = consumed_self_paths(facts, body)
+            if not any(_related(tuple(leaf[i:]), p_) for p_ in used):
+                return False, "manual %s of %s reads only %s" % (tr.split("::")[-1], cur, sorted(".".join(x) for x in used))
+            # a manual impl that reads the field compares it as a whole or delegates: continue below
+        fld = [f for f in a["variants"][0]["fields"] if f["name"] == fname]
+        if not fld or not fld[0]["adt"] or fld[0]["ty"] != fld[0]["adt"]:
+            return True, ""
+        cur = fld[0]["adt"]
+    return True, ""
+
+
+def behaviour_fields_in_identity(facts, rep):
+    """C08.E: a parameter that changes the instantiated graph is part of the cache key"""
+    rep.rule("C08.E", "every field of a custom operation that its instantiate() consumes (so the produced graph depends on it) takes "
+                      "part in the operation's equality AND hash at every nesting level (derived, or read by the manual impl): "
+                      "otherwise two parameterisations are one cache key and the second silently calls the first one's graph")
+    impls = [im for im in facts.impls_of_trait(TRAIT) if im["crate"] == "ciphercore_base"]
+    n = 0
+    for im in sorted(impls, key=lambda x: x["self"]):
+        adt = im["adt"]
+        inst = None
+        for f in im["fns"]:
+            if f.endswith("::instantiate"):
+                inst = facts.body(f)
+        if inst is None:
+            continue
+        used = set(consumed_self_paths(facts, inst))
+        for c in facts.closures_of(inst.id):
+            pass
+        for leaf in leaves(facts, adt):
+            if not any(_related(leaf, p_) for p_ in used):
+                continue
+            n += 1
+            for tr, meth in (("std::cmp::PartialEq", "eq"), ("std::hash::Hash", "hash")):
+                ok, why = eq_reads_leaf(facts, adt, leaf, tr, meth)
+                rep.ob("C08.E", "%s|%s|%s" % (im["self"], ".".join(leaf), meth), ok,
+                       "field `%s` is consumed by instantiate() and takes part in %s" % (".".join(leaf), meth) if ok else
+                       "field `%s` of %s changes the instantiated graph but is ignored by %s (%s): two parameterisations that "
+                       "differ only in it share one instantiation" % (".".join(leaf), im["self"], meth, why), inst.loc())
+    rep.analysed["behaviour_leaf_fields"] = n
+    rep.floor("C08.E", "fields consumed by instantiate()", n, 15)
+
+
+def _named_aux_graphs(facts):
+    """call chains from some instantiate() to a graph-naming call (e.g. a nested run_instantiation_pass)"""
+    from .. import callgraph as CG
+    impls = [im for im in facts.impls_of_trait(TRAIT) if im["crate"] == "ciphercore_base"]
+    seeds = [f for im in impls for f in im["fns"] if f.endswith("::instantiate")]
+    seen = CG.reach(facts, seeds)
+    out = []
+    for n in sorted(seen):
+        for bb, t in facts.bodies[n].calls():
+            if callee_name(t) in NAMING_SINKS and not facts.bodies[n].is_cleanup(bb) and n != "graphs::Graph::set_name":
+                out.append(" -> ".join(x.split("::")[-1] if not x.startswith("<") else x.split(" as ")[0].split("::")[-1] + "::instantiate"
+                                       for x in CG.chain(seen, n)))
+    return out
+
+
 _run_n = run
 
 
 def run(facts, rep, tier):
     _run_n(facts, rep, tier)
     glue_by_identity(facts, rep)
+    behaviour_fields_in_identity(facts, rep)
